@@ -81,16 +81,17 @@ func main() {
 	}
 	if *tier == "thorough" {
 		cfg.Tier = 1
-		cfg.Witnesses = 3
+		cfg.Witnesses = 6
 		cfg.Deadline = time.Now().Add(40 * time.Minute)
 	} else {
-		cfg.Witnesses = 1
+		cfg.Witnesses = 2
 		cfg.Deadline = time.Now().Add(8 * time.Minute)
 	}
 	if *budget > 0 {
 		cfg.Deadline = time.Now().Add(*budget)
 	}
 	tierGlobal = cfg.Tier
+	solverDeadline = cfg.Deadline.Add(30 * time.Second).Unix()
 
 	// known findings
 	var known []knownFinding
